@@ -287,10 +287,12 @@ void MEDDLY::copy_MT::_compute(int L, unsigned in,
         //
 
         unpacked_node* Cu = nullptr;
-        if (can_use_relation_nodes) {
+        if (can_use_relation_nodes && Alevel > 0) {
             //
             // Use relation nodes for relations, so we can copy
-            // any implicit representation to MxDs
+            // any implicit representation to MxDs.
+            // (Not when we were called at a primed level on a
+            // primed node: that is a single matrix row, copied below.)
             //
             rel_node* Arn = argF->buildRelNode(A);
 
